@@ -44,7 +44,7 @@ def reconstruct_py(dbdir):
     rules = []
     for line in open(os.path.join(dbdir, 'zone_policies.py')):
         m = re.match(r'\s*# (Rule\s.*)$', line)
-        if m:
+        if m and len(m.group(1).split()) >= 10:
             rules.append('\t'.join(m.group(1).split()))
     zones, out = [], []
     cur, in_eras, first = None, False, True
@@ -151,7 +151,9 @@ def normalise_zi(path='/usr/share/zoneinfo/tzdata.zi', drop=()):
             isdst_suffix = ''
             if sv[-1] in 'sd':   # explicit isdst marker (not used in 2025b main data)
                 isdst_suffix = sv[-1]; sv = sv[:-1]
-            saves.add(_secs(sv))
+            to_y = 9999 if to2 == 'max' else (int(frm) if to2 == 'only' else int(to2))
+            if to_y >= 1997:   # only rules that can act from 2000 on decide how %z is spelled out (self-checked against zic below)
+                saves.add(_secs(sv))
             out_rules.append('Rule\t%s\t%s\t%s\t-\t%s\t%s\t%s\t%s%s\t%s' % (
                 name, frm, to2, _month(mon), _on(on), _hm(at), sv, isdst_suffix, letter))
         rule_saves[name] = saves
